@@ -31,7 +31,8 @@ Section TxnSeq.
   | OR (r : rout)
   | OHandle (h : nat)          (* a new Txn / Iter value *)
   | ONil                       (* Snapshot of a settled txn returns nil *)
-  | OFinNil | OFinErr | OFinPanicV | OFinPanicSettled | OFinBlocked.   (* how Updates / View ended *)
+  | OFinNil | OFinErr | OFinPanicV | OFinPanicSettled | OFinBlocked   (* how Updates / View ended *)
+  | OFinGoexit.                (* Updates / View never returned: fn ended its goroutine (runtime.Goexit) *)
 
   Fixpoint upd_nth {A} (n : nat) (x : A) (l : list A) : list A :=
     match l, n with
@@ -171,13 +172,18 @@ Section TxnSeq.
         else let '(w2, os, p) := run_body b' w1 in (w2, o :: os, p)
     end.
 
-  Inductive ending := RetNil | RetErr | PanicV.
+  (* how fn ends after its body. Goexit = fn calls runtime.Goexit() (what t.FailNow / require.* do): fn neither
+     returns nor panics; the deferred functions of the goroutine run, recover() returns nil in them, and
+     Updates / View never return to their caller. *)
+  Inductive ending := RetNil | RetErr | PanicV | Goexit.
 
   (* Router.Updates (wr = true) / Router.View (wr = false):
        txn := fox.Txn(wr)
        defer func() { if p := recover(); p != nil { txn.Abort(); panic(p) }; txn.Abort() }()
        Updates: if err := fn(txn); err != nil { return err }; txn.Commit(); return nil
-       View:    return fn(txn)                                                         *)
+       View:    return fn(txn)
+     The deferred function is the only code of Updates / View that runs after a Goexit inside fn: recover() is nil
+     there, so it is the unconditional txn.Abort() that settles the transaction (never Commit).               *)
   Definition managed (wr : bool) (b : list bstep) (e : ending) (w : world) : world * list obs :=
     match begin wr w with
     | (w1, OHandle h) =>
@@ -186,6 +192,7 @@ Section TxnSeq.
         else match e with
              | PanicV => (fst (abort h w2), os ++ [OFinPanicV])
              | RetErr => (fst (abort h w2), os ++ [OFinErr])
+             | Goexit => (fst (abort h w2), os ++ [OFinGoexit])
              | RetNil => if wr then (fst (abort h (fst (commit h w2))), os ++ [OFinNil])
                          else (fst (abort h w2), os ++ [OFinNil])
              end
@@ -237,6 +244,7 @@ Arguments OFinErr {wout rout}.
 Arguments OFinPanicV {wout rout}.
 Arguments OFinPanicSettled {wout rout}.
 Arguments OFinBlocked {wout rout}.
+Arguments OFinGoexit {wout rout}.
 Arguments Begin {wop rop} wr.
 Arguments TWrite {wop rop} h o.
 Arguments TRead {wop rop} h r.
